@@ -35,11 +35,12 @@
                             maps carry no order); attachment events carry the written fields,
                             the concatenated data and the CRC-32 of fields ++ data.
 
-   Not covered here, tied by the correspondence harness (checks C01 in /verif/harness): the
-   non-indexed message iterator half (channel/schema binding of each message), and the clause
-   "values already returned are not altered by later reads" (the model's events are immutable
-   values; aliasing of Go buffers is observed by the harness, which re-reads every returned
-   token after the read has finished). *)
+   Not covered here, tied by the correspondence harness (check_c01 in /verif/tools/props.py):
+   the non-indexed message iterator half (channel/schema binding of each message; reader
+   correspondence cases `messages` and `messages into`), and the clause "values already returned
+   are not altered by later reads" (the model's events are immutable values; aliasing of reused Go
+   buffers can only be observed on the Go side, which the harness does with its buffer-reuse
+   lexer cases). *)
 From Coq Require Import List NArith ZArith Bool.
 From Coq.Strings Require Import Byte.
 From Mcap Require Import Bytes GoSem Crc32 Records RecordsFacts Writer WriterFactsA WriterFactsB
